@@ -28,13 +28,32 @@ fn gh_inc(outlen: usize, key: Option<&[u8]>, parts: &[&[u8]]) -> Vec<u8> {
     o
 }
 
+/// Run one iteration of the corpus. Every input in the corpus is valid, so an `Err` (the generator
+/// unwraps) or a panic inside a build is itself a result: it is recorded as a line that matches no
+/// reference, and the lines that iteration would have produced are missing from that build's
+/// transcript (the comparison reports a case that only some builds could compute).
+fn guarded(v: &mut Vec<Line>, id: String, f: impl FnOnce(&mut Vec<Line>)) {
+    match no_panic(|| {
+        let mut l = vec![];
+        f(&mut l);
+        l
+    }) {
+        Ok(l) => v.extend(l),
+        Err(p) => {
+            let msg: String = p.chars().map(|c| if c.is_control() { ' ' } else { c }).take(160).collect();
+            v.push(Line { id: format!("{id}/FAILED: {msg} at {}", last_panic_loc()), out: b"FAILED".to_vec(), reference: Some(vec![]), nontrivial: false })
+        }
+    }
+}
+
 pub fn generate(seed: u64, tier: Tier) -> Vec<Line> {
-    let mut v: Vec<Line> = vec![];
+    let mut vv: Vec<Line> = vec![];
     let maxlen = tier.pick(800usize, 1100);
     let fills = tier.pick(2usize, 32);
     // --- BLAKE2b one-shot + incremental, SHA-512, HMAC
     for len in 0..=maxlen {
         for fi in 0..fills {
+            guarded(&mut vv, format!("generichash-family/{len}/{fi}"), |v| {
             let mut f = Fill::new(seed, &format!("C18:{len}:{fi}"));
             let msg = f.content(fi, len);
             let outlen = 16 + (len * 7 + fi * 13) % 49;
@@ -68,21 +87,33 @@ pub fn generate(seed: u64, tier: Tier) -> Vec<Line> {
                 dryoc::classic::crypto_auth::crypto_auth(&mut mac, &msg, &k);
                 v.push(Line { id: format!("auth/{len}"), out: mac.to_vec(), reference: Some(sodium::auth(&msg, &k).to_vec()), nontrivial: len > 128 });
             }
+            });
         }
     }
     // --- kdf sweep
     for len in 16..=64usize {
         for (i, id) in [0u64, 1, 255, 1 << 32, u64::MAX].iter().enumerate() {
-            let mut f = Fill::new(seed, &format!("C18:kdf:{len}:{i}"));
-            let (key, cx): ([u8; 32], [u8; 8]) = (f.arr(), f.arr());
-            let mut o = vec![0u8; len];
-            dryoc::classic::crypto_kdf::crypto_kdf_derive_from_key(&mut o, *id, &cx, &key).expect("kdf");
-            v.push(Line { id: format!("kdf/{len}/{id}"), out: o, reference: sodium::kdf_derive(len, *id, &cx, &key), nontrivial: len != 32 });
+            guarded(&mut vv, format!("kdf/{len}/{id}"), |v| {
+                let mut f = Fill::new(seed, &format!("C18:kdf:{len}:{i}"));
+                let (key, cx): ([u8; 32], [u8; 8]) = (f.arr(), f.arr());
+                let mut o = vec![0u8; len];
+                dryoc::classic::crypto_kdf::crypto_kdf_derive_from_key(&mut o, *id, &cx, &key).expect("kdf");
+                v.push(Line { id: format!("kdf/{len}/{id}"), out: o, reference: sodium::kdf_derive(len, *id, &cx, &key), nontrivial: len != 32 });
+                // structured contents: all-zero / all-0xff keys and contexts (salt-only, personal-only parameter blocks)
+                for (kc, cc) in [(0u8, 0u8), (0, 0xff), (0xff, 0), (0x5a, 0)] {
+                    let key = if kc == 0x5a { key } else { [kc; 32] };
+                    let cx = [cc; 8];
+                    let mut o = vec![0u8; len];
+                    dryoc::classic::crypto_kdf::crypto_kdf_derive_from_key(&mut o, *id, &cx, &key).expect("kdf");
+                    v.push(Line { id: format!("kdf-const/{len}/{id}/key{kc:02x}/ctx{cc:02x}"), out: o, reference: sodium::kdf_derive(len, *id, &cx, &key), nontrivial: true });
+                }
+            });
         }
     }
     // --- Curve25519 / Ed25519 / box family
     let n = tier.pick(1000usize, 20_000);
     for i in 0..n {
+        guarded(&mut vv, format!("curve-family/{i}"), |v| {
         let mut f = Fill::new(seed, &format!("C18:ec:{i}"));
         let (sa, sb): ([u8; 32], [u8; 32]) = (f.arr(), f.arr());
         let (apk, ask) = dryoc::classic::crypto_kx::crypto_kx_seed_keypair(&sa).expect("kx");
@@ -118,10 +149,12 @@ pub fn generate(seed: u64, tier: Tier) -> Vec<Line> {
         let mut ph = [0u8; 64];
         dryoc::classic::crypto_sign::crypto_sign_final_create(st, &mut ph, &ssk).expect("ph");
         v.push(Line { id: format!("sign-prehashed/{i}"), out: ph.to_vec(), reference: Some(sodium::sign_ph_create(&[&msg], &ssk).to_vec()), nontrivial: true });
+        });
     }
     // --- Argon2 grid (small memory)
     let pn = tier.pick(120usize, 5000);
     for i in 0..pn {
+        guarded(&mut vv, format!("pwhash/{i}"), |v| {
         let mut f = Fill::new(seed, &format!("C18:pw:{i}"));
         let outlen = 16 + (i * 7) % 150;
         let m = 8 + i % 57;
@@ -133,18 +166,20 @@ pub fn generate(seed: u64, tier: Tier) -> Vec<Line> {
         let a = if alg == 1 { dryoc::classic::crypto_pwhash::PasswordHashAlgorithm::Argon2i13 } else { dryoc::classic::crypto_pwhash::PasswordHashAlgorithm::Argon2id13 };
         dryoc::classic::crypto_pwhash::crypto_pwhash(&mut o, &pw, &salt, t, m * 1024, a).expect("pwhash");
         v.push(Line { id: format!("pwhash/{i}/alg{alg}/out{outlen}/m{m}/t{t}"), out: o, reference: sodium::argon2_raw(alg, t as u32, m as u32, &pw, &salt, outlen), nontrivial: true });
+        });
     }
-    containers_stable(seed, tier, &mut v);
+    containers_stable(seed, tier, &mut vv);
     #[cfg(feature = "nightly")]
-    containers(seed, tier, &mut v);
-    v
+    containers(seed, tier, &mut vv);
+    vv
 }
 
 /// container axis available in every build: stack array, plain array, Vec and `*_to_vec` wrappers
-fn containers_stable(seed: u64, tier: Tier, v: &mut Vec<Line>) {
+fn containers_stable(seed: u64, tier: Tier, vv: &mut Vec<Line>) {
     use dryoc::generichash::GenericHash;
     let n = tier.pick(300usize, 2000);
     for i in 0..n {
+        guarded(vv, format!("container/stable-wrappers/{i}"), |v| {
         let mut f = Fill::new(seed, &format!("C18:cs:{i}"));
         let msg = f.bytes(i % 300);
         let key: [u8; 32] = f.arr();
@@ -202,6 +237,7 @@ fn containers_stable(seed: u64, tier: Tier, v: &mut Vec<Line>) {
         if out == b"CONTAINER-MISMATCH" {
             v.last_mut().unwrap().out = out;
         }
+        });
     }
 }
 
@@ -209,11 +245,12 @@ fn containers_stable(seed: u64, tier: Tier, v: &mut Vec<Line>) {
 /// the bytes the stack/array form gives; recorded under ids shared with... nothing in the stable
 /// transcript, so they are compared between the two nightly builds and checked in-process.
 #[cfg(feature = "nightly")]
-fn containers(seed: u64, tier: Tier, v: &mut Vec<Line>) {
+fn containers(seed: u64, tier: Tier, vv: &mut Vec<Line>) {
     use dryoc::generichash::GenericHash;
     use dryoc::protected::*;
     let n = tier.pick(200usize, 1500);
     for i in 0..n {
+        guarded(vv, format!("container/heap-locked/{i}"), |v| {
         let mut f = Fill::new(seed, &format!("C18:cont:{i}"));
         let msg = f.bytes(i % 400);
         let key: [u8; 32] = f.arr();
@@ -231,6 +268,7 @@ fn containers(seed: u64, tier: Tier, v: &mut Vec<Line>) {
         let kdf2: Locked<HeapByteArray<32>> = dryoc::kdf::Kdf::from_parts(HeapByteArray::<32>::from_slice_into_readonly_locked(&key).expect("l"), HeapByteArray::<8>::from(&[3u8; 8])).derive_subkey(i as u64).expect("kdf");
         let ok = h2.as_slice() == h1 && kdf2.as_slice() == kdf1;
         v.push(Line { id: format!("container/sha512+kdf/{i}"), out: if ok { [h1, kdf1].concat() } else { b"CONTAINER-MISMATCH".to_vec() }, reference: None, nontrivial: true });
+        });
     }
 }
 
@@ -270,6 +308,7 @@ pub fn run(ctx: &mut Ctx) -> Result<(), Violation> {
     }
     let mut transcripts: BTreeMap<&str, BTreeMap<String, (String, String, bool, String)>> = BTreeMap::new();
     let mut order: Vec<String> = vec![];
+    let mut seen: std::collections::BTreeSet<String> = Default::default();
     for (b, mut ch, out) in children {
         let st = ch.wait().expect("wait");
         let text = std::fs::read_to_string(&out).unwrap_or_default();
@@ -281,7 +320,8 @@ pub fn run(ctx: &mut Ctx) -> Result<(), Violation> {
         for line in text.lines() {
             let p: Vec<&str> = line.split('\t').collect();
             if p.len() == 5 {
-                if b == "nightly" {
+                if !seen.contains(p[0]) {
+                    seen.insert(p[0].to_string());
                     order.push(p[0].to_string());
                 }
                 m.insert(p[0].to_string(), (p[1].to_string(), p[2].to_string(), p[3] == "1", p[4].to_string()));
@@ -293,11 +333,19 @@ pub fn run(ctx: &mut Ctx) -> Result<(), Violation> {
     let mut result: Result<(), Violation> = Ok(());
     for id in &order {
         let per: Vec<(&str, Option<&(String, String, bool, String)>)> = builds.iter().map(|b| (*b, transcripts[b].get(id))).collect();
-        let is_container = id.starts_with("container/");
         let present: Vec<&(&str, Option<&(String, String, bool, String)>)> = per.iter().filter(|(_, v)| v.is_some()).collect();
-        if !is_container && present.len() != 3 {
-            eprintln!("HARNESS ERROR: case {id} missing from a transcript");
-            std::process::exit(2);
+        // a case only some builds could compute: the operation failed (Err / panic) in the others; ids of the
+        // nightly-only container cases are compared between the two nightly builds
+        let expected_builds = if id.starts_with("container/heap-locked/") || id.starts_with("container/generichash/") || id.starts_with("container/sha512+kdf/") { 2 } else { 3 };
+        if !id.contains("/FAILED: ") && present.len() < expected_builds && result.is_ok() {
+            let missing: Vec<&str> = per.iter().filter(|(b, v)| v.is_none() && !(expected_builds == 2 && *b == "stable")).map(|(b, _)| *b).collect();
+            let why: Vec<String> = missing.iter().flat_map(|b| transcripts[b].keys().filter(|k| k.contains("/FAILED: ")).take(1).cloned()).collect();
+            result = Err(Violation::new(
+                "C18",
+                "transcript",
+                format!("case {id}: build(s) {:?} produced a result but build(s) {missing:?} failed on the same valid input ({})", present.iter().map(|(b, _)| *b).collect::<Vec<_>>(), why.join("; ")),
+                json!({"case_id": id, "builds": missing, "seed": ctx.seed, "tier": ctx.tier.name()}),
+            ));
         }
         ctx.ev.eval(present.len() as u64);
         let first = present[0].1.unwrap();
@@ -307,7 +355,7 @@ pub fn run(ctx: &mut Ctx) -> Result<(), Violation> {
                 result = Err(Violation::new("C18", "transcript", format!("build {b}: case {id}: container variants produce different bytes"), json!({"case_id": id, "build": b, "seed": ctx.seed, "tier": ctx.tier.name()})));
             }
             if v.1 != "ok" && result.is_ok() {
-                result = Err(Violation::new("C18", "transcript", format!("build {b}: case {id} differs from libsodium's output (output prefix {})", v.3), json!({"case_id": id, "build": b, "seed": ctx.seed, "tier": ctx.tier.name()})));
+                result = Err(Violation::new("C18", "transcript", if id.contains("/FAILED: ") { format!("build {b}: an operation returned Err or panicked on a valid input: {id}") } else { format!("build {b}: case {id} differs from libsodium's output (output prefix {})", v.3) }, json!({"case_id": id, "build": b, "seed": ctx.seed, "tier": ctx.tier.name()})));
             }
             if v.0 != first.0 && result.is_ok() {
                 result = Err(Violation::new(
